@@ -23,8 +23,14 @@ def pauseOk (a : AttemptObs) : Bool :=
     | none => true
     | some t => decide (a.endMs + 1000 ≤ t)
 
+/-- "reporting success ONLY when the new certificate and key have been installed": success implies
+installed.  The converse is not demanded: when a step after the write fails (e.g. a file-post-create
+hook exits non-zero) the certificate is on disk and the attempt is, rightly, reported as failed
+("failure whenever any step failed"). -/
+def successOnlyIfInstalled (a : AttemptObs) : Bool := !a.reportedSuccess || a.installed
+
 def attemptOk (a : AttemptObs) : Bool :=
-  a.postOpCount == 1 && a.reportedSuccess == a.installed && pauseOk a && decide (a.startMs ≤ a.endMs)
+  a.postOpCount == 1 && successOnlyIfInstalled a && pauseOk a && decide (a.startMs ≤ a.endMs)
 
 def holds (log : List AttemptObs) : Bool := log.all attemptOk
 
